@@ -74,8 +74,8 @@ type Series struct {
 	Idx     int
 	Labels  labels.Labels
 	Cells   map[int64]*Cell
-	Last    *Sample // newest in-order sample held by the head for this series (nil: none)
-	InHead  bool    // series currently exists in the head
+	Last    *Sample        // newest in-order sample held by the head for this series (nil: none)
+	InHead  bool           // series currently exists in the head
 	OOOOpen map[int64]bool // timestamps that may sit in the open out-of-order chunk
 	// HeadDeleted: ranges deleted so far (only consulted in known-finding runs: a head tombstone hides
 	// samples appended into its range after the deletion).
